@@ -86,24 +86,39 @@ def ctor_args(cls, params, tag=""):
 
 
 def build(world, ev, cname, tag="", st0=None):
-    """Evaluate the life cycle of one public class on symbolic inputs."""
+    """The life cycle of one public class on symbolic inputs (single construction path)."""
+    ms = models(world, ev, cname, tag, st0)
+    if len(ms) != 1:
+        raise AnalysisError("%s(...) has %d normal construction paths" % (cname, len(ms)))
+    return ms[0]
+
+
+def models(world, ev, cname, tag="", st0=None):
+    """One ClassModel per normal construction path (normally exactly one)."""
+    cls = public_class(world, ev, cname)
+    st = (st0 or world.static).fork()
+    st, params = build_params(world, ev, st)
+    kw, syms = ctor_args(cls, params, tag)
+    outs = ev.run(cls, [], kw, st)
+    r = rets(outs)
+    if not r:
+        raise AnalysisError("%s(...) has no normal construction path" % cname)
+    if len(r) > 8:
+        raise AnalysisError("%s(...) has %d construction paths" % (cname, len(r)))
+    return [_model(world, ev, cname, tag, cls, params, syms, outs, o) for o in r]
+
+
+def _model(world, ev, cname, tag, cls, params, syms, outs, r0):
     cm = ClassModel()
     cm.name = cname
     cm.tag = tag
-    cm.cls = public_class(world, ev, cname)
-    st = (st0 or world.static).fork()
-    st, params = build_params(world, ev, st)
+    cm.cls = cls
     cm.params = params
-    kw, syms = ctor_args(cm.cls, params, tag)
     cm.syms = syms
     cm.msg = Sym("msg" + tag, "bytes")
-    outs = ev.run(cm.cls, [], kw, st)
     cm.ctor = outs
-    r = rets(outs)
-    if len(r) != 1:
-        raise AnalysisError("%s(...) has %d normal construction paths" % (cname, len(r)))
-    cm.obj = r[0].value
-    cm.st_new = r[0].state
+    cm.obj = r0.value
+    cm.st_new = r0.state
     if not isinstance(cm.obj, Obj):
         raise AnalysisError("%s(...) does not return an instance" % cname)
     cm.fields_new = dict(cm.st_new.heap[cm.obj.oid])
